@@ -403,3 +403,55 @@ mod tests {
         assert_eq!(load_all(slab2), vec![701, 901, 10]); // The last item should not be affected.
     }
 }
+
+/// Verification hook: run `revisitable_group_by` over `(value, key)` items and report each group
+/// as `(key, reported len, items actually yielded)`.
+/// `mode` 0: consume every group in order; 1: consume only every other group (the others are
+/// dropped untouched and reported with no items); 2: collect all groups first, then consume them
+/// in reverse order; 3: feed the input through a flattened two-level iterator split at `split`
+/// (as `two_level_storage` does).
+#[cfg(mmtk_verif)]
+pub fn verif_groups(
+    items: &[(i64, i64)],
+    mode: u32,
+    split: usize,
+) -> Vec<(i64, usize, Vec<i64>)> {
+    match mode {
+        0 => items
+            .iter()
+            .revisitable_group_by(|x| x.1)
+            .map(|g| (g.key, g.len, g.map(|x| x.0).collect()))
+            .collect(),
+        1 => {
+            let mut out = vec![];
+            for (i, g) in items.iter().revisitable_group_by(|x| x.1).enumerate() {
+                if i % 2 == 0 {
+                    out.push((g.key, g.len, g.map(|x| x.0).collect()));
+                } else {
+                    out.push((g.key, g.len, vec![]));
+                }
+            }
+            out
+        }
+        2 => {
+            let groups: Vec<_> = items.iter().revisitable_group_by(|x| x.1).collect();
+            let mut out: Vec<_> = groups
+                .into_iter()
+                .rev()
+                .map(|g| (g.key, g.len, g.map(|x| x.0).collect()))
+                .collect();
+            out.reverse();
+            out
+        }
+        _ => {
+            let split = split.min(items.len());
+            let two: [&[(i64, i64)]; 2] = [&items[..split], &items[split..]];
+            two.iter()
+                .copied()
+                .flatten()
+                .revisitable_group_by(|x| x.1)
+                .map(|g| (g.key, g.len, g.map(|x| x.0).collect()))
+                .collect()
+        }
+    }
+}
